@@ -153,7 +153,7 @@ func genMatcherTok(r *vk.RNG, allowFunc bool) gq {
 	if op.d == "re" || op.d == "nre" {
 		v := vk.Pick(r, c05Regexes)
 		g.str(r, v)
-		g.W = fmt.Sprintf("m(%s,%s,%q,re=%q)", l, op.d, v, "^(?:"+v+")$")
+		g.W = fmt.Sprintf("m(%s,%s,%q,re=%s)", l, op.d, v, wantSignature(v, true))
 	} else {
 		v := vk.Pick(r, c05StrVals)
 		g.str(r, v)
@@ -284,7 +284,7 @@ func genStageTok(r *vk.RNG) gq {
 		if op.d == "re" || op.d == "nre" {
 			v := vk.Pick(r, c05Regexes)
 			g.str(r, v)
-			g.W = fmt.Sprintf("lf(%s,%q,ip=false,re=%q)", op.d, v, v)
+			g.W = fmt.Sprintf("lf(%s,%q,ip=false,re=%s)", op.d, v, wantSignature(v, false))
 		} else {
 			v := vk.Pick(r, c05StrVals)
 			g.str(r, v)
@@ -651,7 +651,7 @@ func genMetricTok(r *vk.RNG, depth int) gq {
 		g.add(",")
 		g.str(r, re)
 		g.add(")")
-		g.W = fmt.Sprintf("label_replace(%s,%q,%q,%q,%q,re=%q)", inner.W, dst, repl, src, re, "^(?:"+re+")$")
+		g.W = fmt.Sprintf("label_replace(%s,%q,%q,%q,%q,re=%s)", inner.W, dst, repl, src, re, wantSignature(re, true))
 	case 6:
 		inner := genMetricTok(r, depth-1)
 		g.add("(")
